@@ -398,7 +398,7 @@ func tierBudget(tier string) time.Duration {
 	if tier == "thorough" {
 		return 14 * time.Minute
 	}
-	return 80 * time.Second
+	return 150 * time.Second
 }
 
 // Main dispatches: `<bin> <ID> <tier>`, `<bin> -worker ...`, `<bin> -replay file`.
